@@ -2,7 +2,7 @@
 
 use std::time::Duration;
 
-use super::msg::MAX_MSG_LENGTH;
+use super::msg::{HELLO_MSG_LENGTH, MAX_MSG_LENGTH};
 
 /// Behavior when ports are exhausted and a connect is requested.
 #[derive(Debug, Clone, Copy, PartialEq, Eq, PartialOrd, Ord, Hash)]
@@ -178,7 +178,11 @@ impl Cfg {
     /// # Panics
     /// Panics if the configuration is invalid.
     pub fn max_frame_length(&self) -> u32 {
-        (MAX_MSG_LENGTH as u32).checked_add(self.chunk_size).expect("maximum frame size exceeds u32::MAX")
+        // The hello message of the remote endpoint must fit, whatever the chunk size.
+        (MAX_MSG_LENGTH as u32)
+            .checked_add(self.chunk_size)
+            .expect("maximum frame size exceeds u32::MAX")
+            .max(HELLO_MSG_LENGTH as u32)
     }
 
     /// Configuration that is balanced between memory usage, latency and throughput.
